@@ -17,7 +17,10 @@
 (*             with it;                                                        *)
 (*   "unsync"  a memo with a private copy of the key, but key and name are two *)
 (*             package-level words read and written in separate steps, without *)
-(*             synchronisation.                                                *)
+(*             synchronisation (key first, then name);                         *)
+(*   "split"   the same two words as two ATOMIC cells (no data race), the name *)
+(*             published before the key "so that whoever sees the key sees a   *)
+(*             name": the pair is still not published atomically.              *)
 (*                                                                            *)
 (* Every process owns one buffer (buf[p], 4 bytes) and alternates between      *)
 (* changing its last byte in place and calling the function on it.  `done`     *)
@@ -28,15 +31,18 @@
 (* Obligation (invariant):                                                     *)
 (*   NoHiddenState   every completed call returned EncodeIP of the bytes its   *)
 (*                   argument held at the time of the call                     *)
+(* The obligation quantifies over the calls of ALL processes: a return value    *)
+(* is a function of that call's argument only, whatever other processes do.    *)
 (* TLC proves it for "none" and "copy" and must refute it for "alias" (one     *)
 (* process, two calls: encode 10.0.0.1, bump to 10.0.0.2, encode again -> the  *)
-(* name of 10.0.0.1) and for "unsync" (two processes).  The orchestrator runs  *)
+(* name of 10.0.0.1) and for "unsync" and "split" (two processes: a hit on the *)
+(* key returns the name another process has just stored for ITS address).  The orchestrator runs  *)
 (* the last two configurations expecting the violation; the harness replays    *)
 (* the refuting histories (buffer-reusing walks, goroutines under -race) on    *)
 (* the real function.                                                          *)
 EXTENDS Arpa
 
-CONSTANTS Design,      \* "none" | "copy" | "alias" | "unsync"
+CONSTANTS Design,      \* "none" | "copy" | "alias" | "unsync" | "split"
           Procs,       \* process ids (each owns the buffer of the same id)
           MaxCalls,    \* calls per process
           LastBytes    \* values the last byte of a buffer may take
@@ -89,7 +95,7 @@ AtomicCall(p) ==
     /\ UNCHANGED <<buf, pc, arg>>
 
 (* "unsync": look the key up, then read the name; or store the key, then the name. *)
-Lookup(p) == /\ Design = "unsync"
+Lookup(p) == /\ Design \in {"unsync", "split"}
              /\ pc[p] = "idle" /\ calls[p] < MaxCalls
              /\ calls' = [calls EXCEPT ![p] = @ + 1]
              /\ arg' = [arg EXCEPT ![p] = buf[p]]
@@ -99,22 +105,33 @@ ReadName(p) == /\ pc[p] = "hit"
                /\ Completed(p, arg[p], memo.name)
                /\ pc' = [pc EXCEPT ![p] = "idle"]
                /\ UNCHANGED <<buf, memo, arg, calls>>
-StoreKey(p) == /\ pc[p] = "miss"
+StoreKey(p) == /\ pc[p] = "miss" /\ Design = "unsync"
                /\ memo' = [memo EXCEPT !.valid = TRUE, !.ref = 0, !.val = arg[p]]
                /\ pc' = [pc EXCEPT ![p] = "stored"]
                /\ UNCHANGED <<buf, arg, done, calls>>
-StoreName(p) == /\ pc[p] = "stored"
+StoreName(p) == /\ pc[p] = "stored" /\ Design = "unsync"
                 /\ memo' = [memo EXCEPT !.name = EncodeIP(arg[p])]
                 /\ Completed(p, arg[p], EncodeIP(arg[p]))
                 /\ pc' = [pc EXCEPT ![p] = "idle"]
                 /\ UNCHANGED <<buf, arg, calls>>
+(* "split": the name first, then the key. *)
+PublishName(p) == /\ pc[p] = "miss" /\ Design = "split"
+                  /\ memo' = [memo EXCEPT !.name = EncodeIP(arg[p])]
+                  /\ pc' = [pc EXCEPT ![p] = "stored"]
+                  /\ UNCHANGED <<buf, arg, done, calls>>
+PublishKey(p) == /\ pc[p] = "stored" /\ Design = "split"
+                 /\ memo' = [memo EXCEPT !.valid = TRUE, !.ref = 0, !.val = arg[p]]
+                 /\ Completed(p, arg[p], EncodeIP(arg[p]))
+                 /\ pc' = [pc EXCEPT ![p] = "idle"]
+                 /\ UNCHANGED <<buf, arg, calls>>
 
-Next == \E p \in Procs : Mutate(p) \/ AtomicCall(p) \/ Lookup(p) \/ ReadName(p) \/ StoreKey(p) \/ StoreName(p)
+Next == \E p \in Procs : \/ Mutate(p) \/ AtomicCall(p) \/ Lookup(p) \/ ReadName(p)
+                          \/ StoreKey(p) \/ StoreName(p) \/ PublishName(p) \/ PublishKey(p)
 Spec == Init /\ [][Next]_svars
 
 NoHiddenState == \A r \in done : r.res = EncodeIP(r.arg)
 (* Results are values: a completed call stays as it was (done only grows). *)
 ResultsStable == [][done \subseteq done']_svars
 
-ASSUME Design \in {"none", "copy", "alias", "unsync"}
+ASSUME Design \in {"none", "copy", "alias", "unsync", "split"}
 =============================================================================
